@@ -15,6 +15,9 @@ import treegen as tg
 
 ID = 'C04'
 GEN = ['kernels', 'constraints', 'basedevice']
+# the scalar kernels of functions.py this property's statement depends on (a change confined to the others is not this property's business;
+# what its own correspondence compares still is)
+KERNELS_USED = []
 PROPS = 'Props/C04.v'
 MODEL_VO = ['Model/Tree.v']
 SHARD = 25
